@@ -51,6 +51,13 @@ class C11(Check):
     ]
     budgets = {"quick": {"n": 36, "wall": 170}, "thorough": {"n": 500, "wall": 1500}}
 
+    def extra_batches(self, tier):
+        """fixed experiment: aliases of one imported name (set of pairs sorted by name only was hash-seed dependent)"""
+        base = {"sched": {"seed": 0, "policy": "fifo", "line_p": 0.0}, "enum_seed": None, "heap_shift": 0, "workers": None, "order_seed": None}
+        return [{"kind": "fixed:import-aliases", "world_spec": {"files": [{"path": "deep/er/and/deeper/views.py", "snippets": [757, 763], "layout": {}}]},
+                 "include": ["pixee:python/order-imports"],
+                 "perturbations": [dict(base, hashseed=h) for h in (0, 1, 2, 3, 5)]}]
+
     def gen(self, rng, i, tier):
         used = set()
         r = rng.random()
